@@ -103,7 +103,7 @@ def run(tier, seed):
         B.run_case(regrun.policy_of(pd), reg, "record", None, f"attobj-mutation/{fmt}", scn=None)
     B.close()
     chk.notes.append({"oracle_queries": B.O.counts})
-    fw.env_invariance(chk, "reg")          # the same seeded cases under -O / -OO, warnings-as-errors, other TZ / locale, a private CA bundle
+    fw.env_invariance(chk, "auth", "reg")          # the same seeded cases under -O / -OO, warnings-as-errors, other TZ / locale, a private CA bundle
     return fw.finish(chk, ob, br, TRUSTED,
                      ["theorems quantify over all oracle behaviours; explored oracle answers are computed by independent reference code",
                       "'empty statement for none' is read as: none of the seven statement members the library knows is set (unknown members are not inspected; see DESIGN F6)"],
